@@ -53,9 +53,16 @@ impl From<LexicaseError> for SelErr {
     fn from(e: LexicaseError) -> Self {
         match e {
             LexicaseError::EmptyPopulation(_) => SelErr(-1),
-            LexicaseError::MissingTestCase { .. } => SelErr(-3),
+            LexicaseError::MissingTestCase { current_index, .. } => {
+                LAST_MISSING.with(|c| c.set(Some(current_index)));
+                SelErr(-3)
+            }
         }
     }
+}
+thread_local! {
+    /// the case index the latest MissingTestCase error named
+    static LAST_MISSING: std::cell::Cell<Option<usize>> = const { std::cell::Cell::new(None) };
 }
 impl<E: Into<SelErr>> From<SelectionError<E>> for SelErr {
     fn from(e: SelectionError<E>) -> Self {
@@ -80,7 +87,11 @@ impl From<DynWeightedError> for SelErr {
             DynWeightedError::ZeroWeightSum(_) => SelErr(-4),
             DynWeightedError::Other(b) => match b.downcast::<SelErr>() {
                 Ok(s) => *s,
-                Err(_) => SelErr(-5),
+                // a dynamic list that is itself a member of a dynamic list
+                Err(b) => match b.downcast::<DynWeightedError>() {
+                    Ok(inner) => (*inner).into(),
+                    Err(_) => SelErr(-5),
+                },
             },
         }
     }
@@ -161,6 +172,52 @@ fn build_w<R: Res>(t: &Tree) -> Option<Result<DynW<R>, WeightSumOverflow>> {
         }
         _ => return None,
     })
+}
+
+/// a dynamic list [8, member, weight, rest] .. [7]; a member that is itself a dynamic list is handed over as the CONCRETE
+/// `DynWeighted` value (not boxed first), the way user code nests them
+fn build_dyn<R: Res>(l: &[Tree]) -> Option<Result<DynWeighted<Pop<R>>, (u32, u32)>> {
+    enum Item<R: Res> {
+        Boxed(Sel<R>),
+        Dyn(DynWeighted<Pop<R>>),
+    }
+    let mut items = vec![];
+    let mut cur = l;
+    loop {
+        match cur.first()?.int()? {
+            7 => break,
+            8 => {
+                let m = cur.get(1)?;
+                let item = if m.list().and_then(|x| x.first()).and_then(Tree::int) == Some(8) {
+                    match build_dyn::<R>(m.list()?)? {
+                        Ok(d) => Item::Dyn(d),
+                        Err(e) => return Some(Err(e)),
+                    }
+                } else {
+                    match build::<R>(m)? {
+                        Built::Sel(s) => Item::Boxed(s),
+                        Built::Overflow(a, b) => return Some(Err((a, b))),
+                    }
+                };
+                items.push((item, cur.get(2)?.usize()?));
+                cur = cur.get(3)?.list()?;
+            }
+            _ => return None,
+        }
+    }
+    let mut it = items.into_iter();
+    let (s0, w0) = it.next()?;
+    let mut d = match s0 {
+        Item::Boxed(s) => DynWeighted::new(s, w0),
+        Item::Dyn(x) => DynWeighted::new(x, w0),
+    };
+    for (s, w) in it {
+        d = match s {
+            Item::Boxed(s) => d.with_selector(s, w),
+            Item::Dyn(x) => d.with_selector(x, w),
+        };
+    }
+    Some(Ok(d))
 }
 
 pub fn build<R: Res>(t: &Tree) -> Option<Built<R>> {
@@ -245,31 +302,10 @@ pub fn build<R: Res>(t: &Tree) -> Option<Built<R>> {
             Ok(w) => Box::new(w),
             Err(WeightSumOverflow(a, b)) => return Some(Built::Overflow(a, b)),
         },
-        8 => {
-            let mut items = vec![];
-            let mut cur = l;
-            loop {
-                match cur.first()?.int()? {
-                    7 => break,
-                    8 => {
-                        let s = match build::<R>(cur.get(1)?)? {
-                            Built::Sel(s) => s,
-                            Built::Overflow(a, b) => return Some(Built::Overflow(a, b)),
-                        };
-                        items.push((s, cur.get(2)?.usize()?));
-                        cur = cur.get(3)?.list()?;
-                    }
-                    _ => return None,
-                }
-            }
-            let mut it = items.into_iter();
-            let (s0, w0) = it.next()?;
-            let mut d = DynWeighted::new(s0, w0);
-            for (s, w) in it {
-                d = d.with_selector(s, w);
-            }
-            Box::new(d)
-        }
+        8 => Box::new(match build_dyn::<R>(l)? {
+            Ok(d) => d,
+            Err((a, b)) => return Some(Built::Overflow(a, b)),
+        }),
         _ => return None,
     }))
 }
@@ -347,8 +383,14 @@ fn run_pol<R: Res>(seed: u64, n: usize, pop: &Tree, spec: &Tree, shared_genomes:
             let mut hist: BTreeMap<i64, u64> = BTreeMap::new();
             for _ in 0..n {
                 rng.armed = true;
+                LAST_MISSING.with(|c| c.set(None));
                 let o = match sel.select(&population, &mut rng) {
                     Ok(r) => population.iter().position(|q| std::ptr::eq(q, r)).map_or(-100, |i| i as i64),
+                    // a missing-case error must name a case that some individual really lacks (-30 otherwise)
+                    Err(e) if e.0 == -3 => match LAST_MISSING.with(std::cell::Cell::take) {
+                        Some(idx) if !population.iter().any(|i| i.test_results.results.len() <= idx) => -30,
+                        _ => -3,
+                    },
                     Err(e) => e.0,
                 };
                 *hist.entry(o).or_insert(0) += 1;
@@ -440,6 +482,28 @@ fn dynlist(rng: &mut Sm, n: usize, k: usize, weights: &[i64], nest: bool) -> Tre
     t
 }
 
+/// dynamic lists with a dynamic list among their members, at every position
+fn dyn_in_dyn_specs() -> Vec<Tree> {
+    let mk = |ws: &[i128], tail: Tree, shift: usize| -> Tree {
+        let mut d = tail;
+        for (i, w) in ws.iter().enumerate().rev() {
+            d = tl![A(8), tl![A(((i + shift) % 3) as i128)], a(*w), d];
+        }
+        d
+    };
+    let mut out = vec![];
+    for (inner, wi, outer) in [(vec![1i128, 1], 2i128, vec![1i128, 1]), (vec![3, 6], 1, vec![1, 2]), (vec![0, 0], 3, vec![2]), (vec![2, 0, 1], 0, vec![1]), (vec![1], 5, vec![0, 4])] {
+        let inner_t = mk(&inner, tl![A(7)], 0);
+        for pos in 0..=outer.len() {
+            // outer[..pos], the inner list with weight wi, outer[pos..]
+            let tail = mk(&outer[pos..], tl![A(7)], pos + 1);
+            let with_inner = tl![A(8), inner_t.clone(), a(wi), tail];
+            out.push(mk(&outer[..pos], with_inner, 1));
+        }
+    }
+    out
+}
+
 fn gen_c06(tier: &str, rng: &mut Sm) -> Gen {
     let mut g = Gen::new();
     let reps = if tier == "thorough" { 40 } else { 6 };
@@ -485,6 +549,11 @@ fn gen_c06(tier: &str, rng: &mut Sm) -> Gen {
                 }
             }
         }
+    }
+    // a dynamic list as a member of a dynamic list (first, in the middle, last; with zero weights inside and outside)
+    for d in dyn_in_dyn_specs() {
+        let pop = matrix(rng, 5, 2, 4);
+        g.inputs.push(case(rng, draws * 10, 1, pop, d));
     }
     // dynamic lists whose usize weights do not sum within usize: an error value, never a panic
     for ws in [vec![u64::MAX as i128, 1], vec![u64::MAX as i128 - 1, 1, 1], vec![1i128 << 63, 1 << 63], vec![1, u64::MAX as i128, 0]] {
@@ -724,6 +793,23 @@ fn gen_c13(tier: &str, rng: &mut Sm) -> Gen {
     // single-precision arithmetic, would be visibly biased here), up to the largest total that fits
     for ws in [vec![1i64 << 30, 1 << 31], vec![1 << 30, 1 << 30, 1 << 30], vec![1 << 31, (1 << 31) - 1], vec![3 << 30, 1, 1 << 29], vec![1, 4294967294]] {
         fixed.push(ws);
+    }
+    for d in dyn_in_dyn_specs() {
+        g.inputs.push(case(rng, draws, 1, pop.clone(), d));
+    }
+    // weights sharing a factor at one level of a chain (a pair must expose its TOTAL to the level above, not a reduced one)
+    for ws in [vec![2i64, 2, 1], vec![1, 3, 3], vec![6, 3, 2, 1], vec![1073741824, 1073741824, 2147483648]] {
+        let leaves: Vec<Tree> = ws.iter().enumerate().map(|(i, w)| tl![A(5), a(*w), marker(i)]).collect();
+        let mut left = leaves[0].clone();
+        for l in &leaves[1..] {
+            left = tl![A(6), left, l.clone()];
+        }
+        let mut right = leaves[ws.len() - 1].clone();
+        for l in leaves[..ws.len() - 1].iter().rev() {
+            right = tl![A(6), l.clone(), right];
+        }
+        g.inputs.push(case(rng, draws, 1, pop.clone(), left));
+        g.inputs.push(case(rng, draws, 1, pop.clone(), right));
     }
     // the builder idioms on statically typed chains: one expression, unwrapped after every step, with_weighted_item, mixed
     for ws in [vec![1i64, 1, 6], vec![2, 3], vec![3, 0, 2, 5], vec![0, 0, 4], vec![5, 1, 0], vec![0, 0], vec![1, 2, 3, 4], vec![7, 0, 0, 1],
